@@ -240,7 +240,7 @@ def main():
         cov["samples"] += r.get("samples", [])[:12]
         cov["functions_under_contract"] += r.get("functions", [])
         cov["bounded_harnesses"] += r.get("bounded", [])
-        cov["units"].append({k: r.get(k) for k in ("kind", "name", "obligations", "discharged", "smt_time_s", "wall_s", "verified_functions", "backend", "rlimit", "note", "isolated_runs", "lemmas", "axiom_references_checked") if k in r})
+        cov["units"].append({k: r.get(k) for k in ("kind", "name", "obligations", "discharged", "smt_time_s", "wall_s", "verified_functions", "backend", "rlimit", "note", "isolated_runs", "lemmas", "axiom_references_checked", "axiom_statements_compared") if k in r})
     cov["trusted_base"] = sorted(set(cov["trusted_base"]))
     n_cbmc = sum((h.get("cbmc_checks") or 0) for h in cov["bounded_harnesses"])
     if n_cbmc:
